@@ -143,6 +143,7 @@ def _child_main(path, buffer, req_w, go_r, res_w, scheduled):
         from pathlib import Path
 
         fi = ix.FastaIndex(Path(path), buffer)
+        yp("constructed")  # the object exists, nothing loaded yet
         fi.auto_load()
         idx, asm = result_of(fi)
         res = ("ok", idx, asm, sorted(set(events["written"]) | set(events["replaced"])), sorted(lines_run))
